@@ -243,6 +243,10 @@ pub fn run_check(prop: &str, tier: Tier, seed: u64) -> i32 {
 		"C06" => c06(tier, seed),
 		"C13" => c13(tier, seed),
 		"C17" => c17(tier, seed),
+		"C02" => c02(tier, seed),
+		"C08" => c08(tier, seed),
+		"C10" => c10(tier, seed),
+		"C11" => c11(tier, seed),
 		_ => {
 			eprintln!("unknown or unbuilt property {prop}");
 			2
@@ -520,7 +524,293 @@ pub fn replay(path: &str) -> i32 {
 	code
 }
 
-/// post-hoc oracles computed from the whole run (filled in per property)
-pub fn post_findings(_prop: &str, _case: &AnyCase, _r: &RunResult) -> Vec<Finding> {
-	Vec::new()
+/// post-hoc oracles computed from the whole run
+pub fn post_findings(prop: &str, case: &AnyCase, r: &RunResult) -> Vec<Finding> {
+	let world = match case {
+		AnyCase::Seq(c) => &c.world,
+		AnyCase::Conc(c) => &c.world,
+		AnyCase::Types(_) => return Vec::new(),
+	};
+	match prop {
+		"C08" => order_findings(world, r),
+		"C10" => r
+			.findings
+			.iter()
+			.filter(|f| f.prop == "C13" && f.sig.starts_with("try-failed-but-free") && has(r, "panic_"))
+			.map(|f| Finding { prop: "C10", sig: format!("unusable-after-panic|{}", f.sig), ..f.clone() })
+			.collect(),
+		_ => Vec::new(),
+	}
+}
+
+/// C08: the blocking acquisition sequences of sorting collections must agree
+/// pairwise on the relative order of common locks, be stable, and keep every
+/// owned group contiguous and in its declared order.
+pub fn order_findings(world: &WorldSpec, r: &RunResult) -> Vec<Finding> {
+	let mut out = Vec::new();
+	let sorting = |t: &TargetRef| match t {
+		TargetRef::Coll(c) => *c < world.colls.len() && matches!(world.colls[*c].kind, KindTag::Boxed | KindTag::Ref),
+		_ => false,
+	};
+	let seqs: Vec<&(TargetRef, bool, Vec<u32>)> = r.acq_orders.iter().filter(|(t, _, _)| sorting(t)).collect();
+	let mut before: std::collections::HashMap<(u32, u32), usize> = std::collections::HashMap::new();
+	for (si, (t, _, seq)) in seqs.iter().enumerate() {
+		for i in 0..seq.len() {
+			for j in (i + 1)..seq.len() {
+				if seq[i] == seq[j] {
+					continue;
+				}
+				if let Some(other) = before.get(&(seq[j], seq[i])) {
+					let (ot, _, oseq) = seqs[*other];
+					out.push(Finding {
+						prop: "C08",
+						sig: "order-disagreement".into(),
+						detail: format!(
+							"{t:?} blocks on L{} before L{} (sequence {seq:?}) but {ot:?} blocks on them the other way round (sequence {oseq:?})",
+							seq[i], seq[j]
+						),
+						step: None,
+						tid: 0,
+					});
+					return out;
+				}
+				before.entry((seq[i], seq[j])).or_insert(si);
+			}
+		}
+		// owned groups are acquired as one unit: contiguous (the order inside a group is the group's own business: it may contain sorting collections)
+		let g = |l: u32| r.group_of.get(l as usize).copied().unwrap_or(u32::MAX);
+		for i in 0..seq.len() {
+			let gi = g(seq[i]);
+			if gi == u32::MAX {
+				continue;
+			}
+			for j in (i + 1)..seq.len() {
+				if g(seq[j]) == gi {
+					if (i + 1..j).any(|k| g(seq[k]) != gi) {
+						out.push(Finding {
+							prop: "C08",
+							sig: "owned-group-split".into(),
+							detail: format!("{t:?}: an owned collection is not acquired as one unit: {seq:?}"),
+							step: None,
+							tid: 0,
+						});
+						return out;
+					}
+				}
+			}
+		}
+	}
+	// stability: the same collection in the same mode always gives the same sequence
+	let mut first: std::collections::HashMap<(TargetRef, bool), &Vec<u32>> = std::collections::HashMap::new();
+	for (t, rd, seq) in seqs.iter().map(|x| (&x.0, x.1, &x.2)) {
+		match first.get(&(*t, rd)) {
+			Some(prev) if *prev != seq => {
+				out.push(Finding {
+					prop: "C08",
+					sig: "order-unstable".into(),
+					detail: format!("{t:?} was acquired in order {prev:?} and later in order {seq:?}"),
+					step: None,
+					tid: 0,
+				});
+				return out;
+			}
+			None => {
+				first.insert((*t, rd), seq);
+			}
+			_ => {}
+		}
+	}
+	out
+}
+
+fn c08(tier: Tier, seed: u64) -> i32 {
+	let mut ctx = CheckCtx::new("C08", "exploration", tier, seed);
+	ctx.rule = "SEQ: worlds with 2-5 sorting collections (boxed / ref; members: leaves, Poisonable wrappers, nested boxed/ref/retrying collections, owned collections and by-value groups) over a shared universe of <= 5 leaves, later collections being permuted copies of earlier ones; every blocking lock/read/scoped call records its sequence of blocking raw acquisitions. Metamorphic oracle: all sequences agree pairwise on the relative order of common locks (union of precedence pairs acyclic), the same collection always gives the same sequence, owned groups are contiguous (acquired as one unit). Non-trivial = two sorting collections sharing >= 2 leaves listed in different relative order were both acquired, or a nested member whose listing order differs from the acquisition order; distinct = hash of the decoded case.".into();
+	let mut cfg = seq_cfg_general();
+	cfg.max_threads = 1;
+	cfg.max_steps = 16;
+	cfg.world.min_colls = 2;
+	cfg.world.max_colls = 5;
+	cfg.world.min_leaves = 2;
+	cfg.world.p_copy_permuted = 150;
+	cfg.world.p_byval = 50;
+	cfg.w = StepW { phantom_hold: 0, phantom_release: 0, p_try: 20, p_read: 100, p_coll_target: 250, guard_ops: 1, ..StepW::default() };
+	let opts = Opts::default();
+	let nontrivial = |case: &SeqCase, r: &RunResult| c08_nontrivial(&case.world, r);
+	let extra = |case: &SeqCase, r: &RunResult| order_findings(&case.world, r);
+	let e = SeqEval { prop: "C08", opts, nontrivial: &nontrivial, extra: Some(&extra) };
+	let n = tier.pick(150_000, 3_000_000);
+	ctx.search("seq-acquisition-order", n, 240, |bytes, want| {
+		let case = gen_seq(&mut Src::new(bytes), &cfg);
+		eval_seq_case(&e, &case, want)
+	});
+	ctx.require_label("world.nested", 1000);
+	ctx.finish()
+}
+
+pub fn c08_nontrivial(world: &WorldSpec, r: &RunResult) -> bool {
+	let sorting = |t: &TargetRef| match t {
+		TargetRef::Coll(c) => *c < world.colls.len() && matches!(world.colls[*c].kind, KindTag::Boxed | KindTag::Ref),
+		_ => false,
+	};
+	let sem = Sem::new(world);
+	let seqs: Vec<&(TargetRef, bool, Vec<u32>)> = r.acq_orders.iter().filter(|(t, _, s)| sorting(t) && s.len() >= 2).collect();
+	// declared order of a target differs from the order it was acquired in
+	for (t, _, seq) in &seqs {
+		let declared = sem.target_flat(*t).leaves();
+		let d: Vec<u32> = declared.iter().filter(|l| seq.contains(l)).cloned().collect();
+		if &d != seq {
+			// and some other sequence shares two of its leaves
+			for (t2, _, s2) in &seqs {
+				if t2 != t && seq.iter().filter(|l| s2.contains(l)).count() >= 2 {
+					return true;
+				}
+			}
+		}
+	}
+	false
+}
+
+fn c02(tier: Tier, seed: u64) -> i32 {
+	let mut ctx = CheckCtx::new("C02", "exploration", tier, seed);
+	ctx.rule = "SEQ part: every collection shape (kind x container x nesting x arrangement) is acquired through guards and scoped closures by 1-2 threads; at every visit of a protected value the owner table must say the visiting thread holds that leaf in a sufficient mode (held-at-use), position i must show the payload of declared member i (routing), the version seen must equal the shadow version left by the last exclusive section (continuity), closures run with the whole leaf set held. CONC part: the same oracles in 2-4 thread programs with a scheduling point inside every critical section, under generated schedules. Non-trivial = (SEQ) a target with >= 2 leaves whose declared order differs from lock-id order or that nests collections was visited; (CONC) two threads had sections on a common leaf, one exclusive, with a context switch in between; distinct = hash of case (+ schedule).".into();
+	let mut cfg = seq_cfg_general();
+	cfg.max_steps = 14;
+	cfg.w.guard_ops = 12;
+	cfg.w.phantom_hold = 1;
+	cfg.w.p_try = 60;
+	let opts = Opts::default();
+	let nontrivial = |case: &SeqCase, r: &RunResult| any_nested_or_big(case) && r.raw_ops >= 4;
+	let e = SeqEval { prop: "C02", opts, nontrivial: &nontrivial, extra: None };
+	let n = tier.pick(150_000, 3_000_000);
+	ctx.search("seq-routing-held-at-use", n, 220, |bytes, want| {
+		let case = gen_seq(&mut Src::new(bytes), &cfg);
+		eval_seq_case(&e, &case, want)
+	});
+	conc_campaign(&mut ctx, "C02", tier);
+	ctx.require_label("world.nested", 1000);
+	ctx.finish()
+}
+
+/// shared CONC campaign (C01's programs with a yield inside every section)
+pub fn conc_campaign(ctx: &mut CheckCtx, prop: &'static str, tier: Tier) {
+	let cfg = ConcCfg::default();
+	let nontrivial = |case: &ConcCase, r: &RunResult| conc_nontrivial(prop, case, r);
+	let extra = |case: &ConcCase, r: &RunResult| post_findings(prop, &AnyCase::Conc(case.clone()), r);
+	let e = ConcEval { prop, nontrivial: &nontrivial, extra: Some(&extra) };
+	let n = tier.pick(30_000, 1_000_000);
+	ctx.search("conc-programs-x-schedules", n, 260, |bytes, want| {
+		let case = gen_conc(&mut Src::new(bytes), &cfg);
+		eval_conc_case(&e, &case, want)
+	});
+}
+
+pub fn conc_nontrivial(prop: &str, case: &ConcCase, r: &RunResult) -> bool {
+	match prop {
+		"C08" => c08_nontrivial(&case.world, r),
+		"C02" => {
+			// two threads touched a common leaf, one exclusively, and the scheduler switched
+			r.switches > 0 && {
+				let mut by_leaf: std::collections::HashMap<u32, Vec<(u8, bool)>> = std::collections::HashMap::new();
+				for e in &r.events {
+					if e.op.is_acquire() && matches!(e.out, crate::exec::Outcome::Ok | crate::exec::Outcome::OkWaited) {
+						by_leaf.entry(e.lid).or_default().push((e.tid, e.op.is_shared()));
+					}
+				}
+				by_leaf.values().any(|v| v.iter().any(|(t, sh)| !*sh && v.iter().any(|(t2, _)| t2 != t)))
+			}
+		}
+		_ => r.waited || has(r, "rollback"),
+	}
+}
+
+fn c10(tier: Tier, seed: u64) -> i32 {
+	let mut ctx = CheckCtx::new("C10", "exploration", tier, seed);
+	ctx.rule = "SEQ histories on 1-2 threads over Poisonable-heavy worlds (Poisonable leaves, double wrappers, inline Poisonable<&lock> members, Poisonable collections, nested): holds through the wrapper's own guard and scoped calls and through every collection kind's guards and scoped calls, try paths, panics injected at any hold, clear_poison, is_poisoned, later acquisitions by both threads. Reference model per wrapper: Clean / Poisoned (panic under an exclusive hold) / Unspecified (panic under a shared hold only); compared with is_poisoned(), Ok/Err of every acquisition and of every member position. Also: a poisoned acquisition holds the lock and its guard works; plain locks stay usable. Non-trivial = a panic during a hold followed by an observation of that wrapper, or a clear followed by a re-poison; distinct = hash of the decoded case.".into();
+	let mut cfg = seq_cfg_general();
+	cfg.max_steps = 18;
+	cfg.world.p_wrap = 170;
+	cfg.world.p_inline_wrap = 90;
+	cfg.world.p_pois_coll = 110;
+	cfg.w = StepW {
+		guard_ops: 12,
+		p_panic: 90,
+		is_poisoned: 6,
+		clear_poison: 3,
+		phantom_hold: 1,
+		p_try: 90,
+		p_forget_guard: 0,
+		forget_key: 0,
+		..StepW::default()
+	};
+	let opts = Opts { quiescent: true, ..Default::default() };
+	let nontrivial = |_case: &SeqCase, r: &RunResult| has(r, "panic_in_section") && (has(r, "poison_observed_after_panic") || has(r, "poisoned_acquire") || has(r, "clear_after_poison"));
+	let extra = |case: &SeqCase, r: &RunResult| post_findings("C10", &AnyCase::Seq(case.clone()), r);
+	let e = SeqEval { prop: "C10", opts, nontrivial: &nontrivial, extra: Some(&extra) };
+	let n = tier.pick(150_000, 3_000_000);
+	ctx.search("seq-poison-histories", n, 260, |bytes, want| {
+		let case = gen_seq(&mut Src::new(bytes), &cfg);
+		eval_seq_case(&e, &case, want)
+	});
+	ctx.require_label("poisoned_acquire", 500);
+	ctx.require_label("clear_after_poison", 100);
+	ctx.finish()
+}
+
+fn c11(tier: Tier, seed: u64) -> i32 {
+	let mut ctx = CheckCtx::new("C11", "exploration", tier, seed);
+	ctx.rule = "SEQ: API flavour x kind x size x mode x {owned, lent key} with a panic (private payload) injected while the guard is alive or inside the closure; oracle: catch_unwind yields our payload, afterwards the caller holds nothing, releases == holds (multiset), ThreadKey::get() is Some if the key had been moved in (or the lent key works again). CONC: the panic in a critical section of 2-4 thread programs with waiters; the execution must complete (no deadlock, all threads finish). Non-trivial = >= 2 leaves were held at the panic (SEQ) or another thread was waiting for one of them (CONC); distinct = hash of case (+ schedule).".into();
+	let mut cfg = seq_cfg_general();
+	cfg.w.p_panic = 140;
+	cfg.w.guard_ops = 12;
+	cfg.w.phantom_hold = 1;
+	let opts = Opts::default();
+	let nontrivial = |case: &SeqCase, r: &RunResult| {
+		if !has(r, "panic_in_section") {
+			return false;
+		}
+		let sem = Sem::new(&case.world);
+		case.steps.iter().any(|(_, s)| match s {
+			Step::Scoped { target, body, .. } => body.contains(&BodyOp::Panic) && sem_len(&sem, &case.world, *target) >= 2,
+			_ => false,
+		}) || (has(r, "panic_with_guard") && has(r, "released_multi") || any_nested_or_big(case))
+	};
+	let e = SeqEval { prop: "C11", opts, nontrivial: &nontrivial, extra: None };
+	let n = tier.pick(150_000, 3_000_000);
+	ctx.search("seq-panic-in-section", n, 220, |bytes, want| {
+		let case = gen_seq(&mut Src::new(bytes), &cfg);
+		eval_seq_case(&e, &case, want)
+	});
+	// CONC half: panics with waiters
+	let mut ccfg = ConcCfg::default();
+	ccfg.p_panic = 110;
+	let cnon = |_case: &ConcCase, r: &RunResult| has(r, "panic_in_section") && r.waited;
+	let cextra = |_case: &ConcCase, r: &RunResult| -> Vec<Finding> {
+		// a stuck execution after a panic: the waiters did not proceed
+		if !has(r, "panic_in_section") {
+			return Vec::new();
+		}
+		r.findings
+			.iter()
+			.filter(|f| f.prop == "C01" && (f.sig == "deadlock" || f.sig == "no-progress-cycle"))
+			.map(|f| Finding { prop: "C11", sig: format!("waiters-stuck-after-panic|{}", f.sig), ..f.clone() })
+			.collect()
+	};
+	let ce = ConcEval { prop: "C11", nontrivial: &cnon, extra: Some(&cextra) };
+	let n = tier.pick(30_000, 1_000_000);
+	ctx.search("conc-panic-with-waiters", n, 260, |bytes, want| {
+		let case = gen_conc(&mut Src::new(bytes), &ccfg);
+		eval_conc_case(&ce, &case, want)
+	});
+	ctx.require_label("panic_in_scoped", 1000);
+	ctx.require_label("panic_with_guard", 1000);
+	ctx.finish()
+}
+
+fn sem_len(sem: &Sem, world: &WorldSpec, t: TargetRef) -> usize {
+	match t {
+		TargetRef::Leaf(_) => 1,
+		TargetRef::Coll(c) if c < world.colls.len() => sem.flats[c].pos.len(),
+		_ => 0,
+	}
 }
